@@ -2,7 +2,7 @@
    non-vacuity examples and the witnesses of the known findings F3, F4, F5 (the model reproduces
    what the real crate does; the same scenarios + schedules are replayed on the real code by the
    checks, corpus/*_known_*.txt). *)
-From RS Require Import Base Channel Pipeline Selector Script World Instance Hist.
+From RS Require Import Base Channel Pipeline Selector Script World Instance Hist WorldSubs WorldSids WorldForward.
 
 Definition sc0 : scripts := mkScripts [mkRscript 0%N true []] [] [].
 Definition cfg0 := script_config sc0 16 Block.
@@ -99,3 +99,21 @@ Example stopped_world_exists :
   w_state w = [(0, 1); (0, 2)]%N /\ pool_idle w = true /\ w_pool w = false /\ w_tx_open w = false /\
   forallb (fun p => thread_finished (snd p)) (w_threads w) = true.
 Proof. vm_compute. repeat split. Qed.
+
+(* ---- non-vacuity of C14_every_notification / C10_same_stream: an iterator created at run time,
+   three notifying actions, one next(): the snapshots owe it [1;2;3]; it has yielded [1], [2] is
+   queued in its capacity-1 channel and the reducer is parked in the blocking send of 3 ---- *)
+Definition w_it := scenario_world sc0 16 Block [0%N] [] []
+  [[CIter 1%N 1 Block; CDispatch EStoreImpl 1%N; CDispatch EStoreImpl 2%N; CDispatch EStoreImpl 3%N; CNext 1%N]].
+
+Example iterator_stream_exists :
+  let w := drive 400 w_it in
+  exists c pc, get_chan (w_chans w) 1%N = Some c /\ pol c = Block /\ tx_alive c = true /\
+    get_thread (w_threads w) reducer_tid = Some (TReducer pc) /\
+    rev (fowed 1%N (w_hist w)) = [1; 2; 3]%N /\ rev (subrecvs 1%N (w_hist w)) = [1%N] /\
+    qacts c = [2%N] /\ pendingf 1%N pc = [3%N].
+Proof. vm_compute. eexists _, _. repeat split. Qed.
+
+Example iterator_program_distinct :
+  distinct_regs [[CIter 1%N 1 Block; CDispatch EStoreImpl 1%N; CDispatch EStoreImpl 2%N; CDispatch EStoreImpl 3%N; CNext 1%N]].
+Proof. unfold distinct_regs. cbn. constructor; [intros []|constructor]. Qed.
